@@ -128,6 +128,16 @@ func verifyCascadingFields(
 		return sdkerrors.Wrapf(ErrUnknownAncestor, "parent height %d, parent hash %s", parent.Height.RevisionHeight, parent.Hash().String())
 	}
 
+	// neither the block hash nor the seal covers the revision number, while consensus states and recent-signer
+	// records are keyed by the full height: a header is one height above the head only if it stays in the head's
+	// revision, otherwise an abandoned branch keeps its roots under the other revision
+	if header.Height.RevisionNumber != parent.Height.RevisionNumber {
+		return sdkerrors.Wrapf(
+			ErrUnknownAncestor, "header revision number %d differs from its parent's %d",
+			header.Height.RevisionNumber, parent.Height.RevisionNumber,
+		)
+	}
+
 	// Verify that the gas limit is <= 2^63-1
 	capacity := uint64(0x7fffffffffffffff)
 	if header.GasLimit > capacity {
